@@ -102,6 +102,14 @@ pub fn connections() -> Vec<Conn> {
     // 1: same host pair, other client port (shares addresses with 0), IPv6 handshake separately
     let e = Ends { cip: 1, cport: 40002, sip: 2, sport: 80, v6: false };
     v.push(Conn { name: s("tcp-handshake-ts-other-port"), pkts: vec![(seg(&e, true, SYN, 1000, &[], Some(77_000)), T0 + 5), (seg(&e, false, SYN | ACK, 5000, &[], Some(123_000)), T0 + 30), (seg(&e, true, ACK, 1001, &[], Some(77_250)), T0 + 1005)] });
+    // two clients that picked the same ephemeral port towards the same server endpoint (IPv6 and IPv4): only the client
+    // address tells the connections apart; timestamps on every packet so that the uptime tracker is involved
+    for (v6, base) in [(true, 21u8), (false, 24u8)] {
+        for (k, (cip, ts_c, ts_s, t)) in [(base, 300_000u32, 4_000_000u32, T0 + 40), (base + 2, 910_000, 8_800_000, T0 + 60)].into_iter().enumerate() {
+            let e = Ends { cip, cport: 45000, sip: base + 1, sport: 80, v6 };
+            v.push(Conn { name: format!("tcp{}-handshake-ts-same-client-port-{}", if v6 { 6 } else { 4 }, ["a", "b"][k]), pkts: vec![(seg(&e, true, SYN, 1000, &[], Some(ts_c)), t), (seg(&e, false, SYN | ACK, 5000, &[], Some(ts_s)), t + 30), (seg(&e, true, ACK, 1001, &[], Some(ts_c + 100)), t + 1000), (seg(&e, false, ACK | PSH, 5001, b"x", Some(ts_s + 2000)), t + 2030)] });
+        }
+    }
     // 2-4: ClientHello in 1, 2, 3 segments
     for (i, cuts) in [vec![], vec![40usize], vec![5usize, 90]].iter().enumerate() {
         let e = Ends { cip: 3, cport: 41000 + i as u16, sip: 4, sport: 443, v6: i == 2 };
@@ -387,7 +395,7 @@ pub fn run(thorough: bool) -> Outcome {
     check_successions(&mut pre);
     Outcome {
         report: pre.merge(rep),
-        rule: "16 connections (TCP handshakes with timestamps, ClientHello in 1/2/3 segments incl. IPv6, two HTTP/1 exchanges sharing a server, HTTP/2 exchanges: static only / literal with indexing / referencing foreign dynamic entries / size update 0 / state change followed by a decoding error / self reference, garbage after SYN, a TLS flow sharing the HTTP client's endpoint): every unordered pair (thorough: every triple of the 8 shortest) in every order-preserving interleaving on fresh TCP, HTTP, TLS and unified analyzers (capacity 8), each packet's result compared with the isolated run; plus successions on one 4-tuple: 7 HTTP predecessors (complete, closed by FIN, request only, handshake only, unfinished head, binary) x HTTP/1 and HTTP/2 successors with other initial sequence numbers whose SYN is plain, ECN-setup (ECE|CWR), SYN|PSH or SYN|URG, 4 TLS predecessors x a ClientHello successor (plain and ECN-setup SYN), the successor's results compared with its isolated run; distinct = distinct per-trace result vectors".into(),
+        rule: "20 connections (TCP handshakes with timestamps incl. IPv6 and two clients using the same ephemeral port towards one server endpoint, ClientHello in 1/2/3 segments incl. IPv6, two HTTP/1 exchanges sharing a server, HTTP/2 exchanges: static only / literal with indexing / referencing foreign dynamic entries / size update 0 / state change followed by a decoding error / self reference, garbage after SYN, a TLS flow sharing the HTTP client's endpoint): every unordered pair (thorough: every triple of the 8 shortest) in every order-preserving interleaving on fresh TCP, HTTP, TLS and unified analyzers (capacity 8), each packet's result compared with the isolated run; plus successions on one 4-tuple: 7 HTTP predecessors (complete, closed by FIN, request only, handshake only, unfinished head, binary) x HTTP/1 and HTTP/2 successors with other initial sequence numbers whose SYN is plain, ECN-setup (ECE|CWR), SYN|PSH or SYN|URG, 4 TLS predecessors x a ClientHello successor (plain and ECN-setup SYN), the successor's results compared with its isolated run; distinct = distinct per-trace result vectors".into(),
         exhaustive: true,
         bounds: json!({"connections": conns.len(), "groups": groups.len(), "max_group": if thorough {3} else {2}}),
     }
